@@ -76,13 +76,29 @@ def _history(fe):
                                    'size': st.sampled_from([0, 0, 0, 300, 4000, 4096, 4200, 8800]),
                                    # the reply bytes are the application's business - e.g. a relay hands on what it received from
                                    # upstream, envelope (with the upstream's token) included
-                                   'enveloped': st.sampled_from([None, None, None, None, '', 'aa', '0102030405060708'])})
+                                   'enveloped': st.sampled_from([None, None, None, None, '', 'aa', '0102030405060708']),
+                                   'scribble_ctx': st.sampled_from([None, None, None, 'clear', 'edit'])})
     adv = st.fixed_dictionaries({'op': st.just('adv'), 'ms': st.sampled_from([0, 1, 10, 49, 51, 200])})
     ops = [express, data, data, nack, nack, frag, interest, interest, adv]
     if fe == 'v2':
         ops += [reply, reply, reply]
-    return st.tuples(st.lists(st.one_of(express, interest), min_size=1, max_size=4),
+    free = st.tuples(st.lists(st.one_of(express, interest), min_size=1, max_size=4),
                      st.lists(st.one_of(*ops), min_size=2, max_size=18)).map(lambda t: t[0] + t[1])
+
+    @st.composite
+    def twins(draw):
+        """Two Interests under ONE name that differ in their implicit digest (one has none); a Nack answers one of them, then the
+        Data for the other arrives - too rare in free histories (four particular steps in order)."""
+        n = draw(nm)
+        first_digest = draw(st.booleans())
+        core = [{'op': 'express', 'name': n, 'cbp': False, 'life': 4000, 'digest': first_digest},
+                {'op': 'express', 'name': n, 'cbp': draw(st.booleans()), 'life': 4000, 'digest': not first_digest},
+                {'op': 'nack', 'of': draw(st.integers(0, 1)), 'reason': draw(st.sampled_from(REASONS)), 'env': [], 'token': None, 'reencoded': False},
+                {'op': 'adv', 'ms': draw(st.sampled_from([0, 1, 10]))},
+                {'op': 'data', 'of': 0, 'ext': [], 'env': draw(_envspec()), 'token': None},
+                {'op': 'data', 'of': 1, 'ext': [], 'env': [], 'token': None}]
+        return core + draw(st.lists(st.one_of(*ops), max_size=4))
+    return st.one_of(free, free, free, twins())
 
 
 def _case(fe):
@@ -230,6 +246,14 @@ def _run(fe, ops, full, r, flags, trace):
                 data = net.data_wire(c['name'], content=b'r%d' % c['n'] + b'.' * op.get('size', 0))
                 if op.get('size', 0) >= 4096:
                     flags.add('big-reply')
+                if op.get('scribble_ctx') and isinstance(c.get('ctx'), dict):
+                    # the context handed to the handler is the handler's to edit (it may keep notes in it, clear it, pass it on): the
+                    # reply goes to the Interest that was received, whatever the dict says by now
+                    if op['scribble_ctx'] == 'clear':
+                        c['ctx'].clear()
+                    else:
+                        c['ctx'].update({'pit_token': b'\xee\xee', 'deadline': 0, 'note': 'mine'})
+                    flags.add('context-edited-before-reply')
                 if op.get('enveloped') is not None:
                     data = net.lp_wrap(data, pit_token=bytes.fromhex(op['enveloped']))
                     flags.add('reply-is-an-envelope')
